@@ -204,12 +204,12 @@ def plan(ctx):
         nlin = 4
     else:
         for c in cfgs:
-            tasks += [('dfs', c, 'full', 3, op) for op in FULL]
-        for c in [c for c in cfgs if c['train']]:
-            tasks += [('dfs', c, 'mid', 4, op) for op in MID]
+            tasks += [('dfs', c, 'full', 3 if c['train'] else 2, op) for op in FULL]
         for c in main:
-            tasks += [('dfs', dict(c, spec0='single_a'), 'small', 5, op) for op in SMALL]
-        nlin = 30
+            tasks += [('dfs', c, 'mid', 4, op) for op in MID]
+        for c in [c for c in main if c['full_cost']]:
+            tasks += [('dfs', c, 'small', 5, op) for op in SMALL]
+        nlin = 20
     for c in cfgs:
         for _ in range(nlin):
             ops = [ctx.rng.choice(FULL) for _ in range(5)]
@@ -223,7 +223,7 @@ def run(ctx):
     tasks = plan(ctx)
     ctx.rule = ('every op sequence over the alphabet up to the stated depth on each of 20 configurations (method x sampler x full_cost x train/eval), enumerated as a tree '
                 '(one op applied to a deep copy of the parent, RNG included) + seeded length-5 histories on one live object; quick: full alphabet (10 ops) depth 2 on all '
-                'configurations, depth 3 on 3; thorough: full depth 3 on all, 7-op alphabet depth 4 on the 10 training configurations, 5-op alphabet depth 5 on 6; '
+                'configurations, depth 3 on 3; thorough: full depth 3 on the 10 training configurations (2 on the eval ones), 7-op alphabet depth 4 on 6, 5-op alphabet depth 5 on 3 (PIT, MPS-Gumbel, SuperNet-Gumbel, training, full_cost); '
                 'a case = one history; non-trivial = it contains an observer call; distinct = distinct (configuration, history)')
     tasks.sort(key=lambda t: -(len(ALPH[t[2]]) ** (t[3] - 1) if t[0] == 'dfs' else 1))
     mp = multiprocessing.get_context('fork')
@@ -251,9 +251,14 @@ def run(ctx):
     ctx.extra['exhaustive_part'] = 'all histories up to the stated depth over the stated alphabets (see rule); the 3 networks, their weights and the input batch are fixed'
     ctx.extra['steps_executed'] = sum(len(n) for _, n in groups.values())
 
+    # consequences (continuation / round trip / forward results) are reported only where no single observer step
+    # already explains them
+    step_tags = {k.split(':', 1)[1] for k, _, _ in fails if '-changes-' in k or '-result-differs-' in k}
+    fails.sort(key=lambda f: (len(f[1].get('ops', ())), len(f[1]['cfg'].get('prefix', ()))))     # shortest witness of every key (stable sort)
     seen = set()
     for key, rep, what in fails:
-        if key in seen:
+        if key in seen or (key.split(':', 1)[0] in ('continuation-differs-after-observers', 'forward-output-differs-after-observers', 'set-spec-roundtrip-cost-differs')
+                           and key.split(':', 1)[1] in step_tags):
             continue
         seen.add(key)
         ctx.violation(key, rep, what)
